@@ -178,9 +178,9 @@ def _is_deselection(selectors):
 
 
 DEFAULT_SENSOR_PROPS = {
-    '*nd_coupler': {'categorical': True, 'greedy_values': (True,), 'initial_value': '0',
+    '*nd_coupler': {'categorical': True, 'greedy_values': (True,), 'initial_value': False,
                     'transform': lambda x: x not in ('0', 'False', 0)},
-    '*nd_pin': {'categorical': True, 'greedy_values': (True,), 'initial_value': '0',
+    '*nd_pin': {'categorical': True, 'greedy_values': (True,), 'initial_value': False,
                 'transform': lambda x: x not in ('0', 'False', 0)},
     'Observation/label': {'initial_value': '', 'transform': str, 'allow_repeats': True},
     'Observation/scan_state': {'allow_repeats': True},
